@@ -82,6 +82,11 @@ class StepOracle:
             R = 0.5 * (b[:-1] + b[1:])
             x[: int(snap["rdf_index"][p]) + 1] = 0
             x[R < cons.minRadius] = 0
+            # a class that over-dissolved within the step (allowed below the dissolution index) is empty, not negatively populated:
+            # the distribution of the step is the non-negative part (KF-C03-3: the recorded statistics used to include such classes)
+            if np.any(x < 0):
+                self.flags.add("negative_classes_truncated")
+                x[x < 0] = 0
             if not np.all(np.isfinite(x)):
                 self.flags.add("nonfinite_state")
                 skip_mass = True
@@ -134,8 +139,6 @@ class StepOracle:
                     self._fail("density_grows_beyond_nucleation", "step %d phase %d: number density rose by %r in dt=%r, nucleation allows at most %r (max stage rate %r)" % (n, p, Nraw - Nheld, snap["dt"], snap["dt"] * J, J), step=int(n))
                 if J == 0 and Nheld > 0:
                     self.flags.add("zero_nucleation_populated")
-                if np.any(snap["x_new"][p] < 0):
-                    self.flags.add("negative_classes_truncated")
                 # recorded PSD history
                 pbm = model.PBM[p]
                 if pbm._record and pbm._recordedTime is not None and len(pbm._recordedTime) > 1 and pbm._recordedTime[-1] == t_new:
